@@ -150,6 +150,9 @@ func (p *ProjectRunner) runProcess(config *types.ProcessConfig) {
 			log.Error().Msgf("Error: %s", err.Error())
 			log.Error().Msgf("Error: process %s won't run", proc.getName())
 			proc.wontRun()
+			// a skipped process is remembered like an ended one: its dependents must find it (and be skipped
+			// in turn) instead of finding nothing and being launched
+			p.addDoneProcess(proc)
 			p.onProcessSkipped(proc.procConf)
 		} else {
 			exitCode := proc.run()
